@@ -112,6 +112,15 @@ func main() {
 				fmt.Printf("%-60s %-32s %-12s %s\n", funcKey(f), g.Global, g.How, shortPos(w.Fset, g.Instr.Pos()))
 			}
 		}
+	case "writers":
+		w.immutableArr("")
+		for a, fs := range w.Mod.Writers {
+			if re == nil || re.MatchString(a) {
+				for f := range fs {
+					fmt.Println(a, "<-", f)
+				}
+			}
+		}
 	case "immutable":
 		w.immutableArr("")
 		for _, f := range w.Mod.immutableFields() {
